@@ -67,7 +67,10 @@ def ec_export(crv, private):
             pn = k.public_key().public_numbers()
             short = pn.x < (1 << (8 * (L_ - 1))) or pn.y < (1 << (8 * (L_ - 1)))
             if short or dd < 3:
-                j = ECKey(k if private else k.public_key(), k if private else k.public_key()).as_dict()
+                try:
+                    j = ECKey(k if private else k.public_key(), k if private else k.public_key()).as_dict()
+                except Exception as e:  # noqa
+                    return {"violated": True, "key": "c11-ec-export-fails", "detail": "%s key with private scalar %d cannot be exported as JWK: %s %s" % (crv, dd, type(e).__name__, e)}
                 for m in ("x", "y") + (("d",) if private else ()):
                     if len(R.b64d(j[m])) != L_:
                         return {"violated": True, "key": "c11-ec-length", "detail": "%s key with private scalar %d exports %s with %d octets (curve needs %d)" % (crv, dd, m, len(R.b64d(j[m])), L_)}
